@@ -1,7 +1,7 @@
 #!/bin/sh
 # Runs the repository's test suite (guard off) and checks that every test of BASELINE.stable_pass passes.
 out=$(mktemp -d)
-cd /repo && env -u CLASSY_BLOCKS_VERIF /venv/bin/python -m pytest -q -p no:cacheprovider --timeout=900 --continue-on-collection-errors --junitxml=$out/j.xml >/dev/null 2>&1
+cd "${CB_REPO:-/repo}" && env -u CLASSY_BLOCKS_VERIF PYTHONPATH="${CB_REPO:-/repo}/src" /venv/bin/python -m pytest -q -p no:cacheprovider --timeout=900 --continue-on-collection-errors --junitxml=$out/j.xml >/dev/null 2>&1
 /venv/bin/python - "$out/j.xml" <<'PY'
 import json, sys, xml.etree.ElementTree as ET
 base = json.load(open('/root/.vp/BASELINE.json'))
